@@ -233,6 +233,7 @@ class RiemannPointEOS(Obligation):
         self.R = R
         self.gl, self.gr, self.only = gl, gr, only
         self.id = 'C03.riemann.%s.gl=%s.gr=%s' % (only, gl, gr)
+        self.cost = 5           # scheduling hint for the thorough tier: the heavy extras go last
         self.modules = R.modules()
         self.extra_shim = dict(R.shim_extra_point(), bisect=R.bisect_only(only))
         self.functions = [H.mod(R.RM).RiemannIGEOS.driver, H.mod(R.EP).IGEOS_Solver._run, H.mod(R.UM).sie, H.mod(R.UM).rho_p_u_rarefaction]
